@@ -20,7 +20,7 @@ def run(ctx):
     if ctx.tier == "thorough":
         ctx.leanchecker(["Folang.Props.C02"])
     wd = gocommon.workdir("c02.work")
-    n = 100 if ctx.tier == "quick" else 20000
+    n = 100 if ctx.tier == "quick" else 5000
     r = ctx.run_harness([fcdrv], env=gocommon.fc_env("c02", "%d %d %s" % (ctx.seed, n, wd)), timeout=40000)
     ok = r is not None
     if ok:
